@@ -215,6 +215,59 @@ func intrinsic(name string, fn *ssa.Function, args []value, free []value) (value
 			a1 = concretize(t)
 		}
 		return one(splitUnion(a0), splitUnion(a1)), true
+	case "strings.IndexFunc", "strings.LastIndexFunc", "strings.ContainsFunc":
+		cl, ok := args[1].(*closure)
+		if !ok || cl == nil {
+			panic(unsupported{name + " with a non-closure predicate"})
+		}
+		pred := func(r value) bool { return branch(call(cl.fn, []value{r}, cl.env)) }
+		res := func(i int) value {
+			if name == "strings.ContainsFunc" {
+				return i >= 0
+			}
+			return int64(i)
+		}
+		one := func(sv value) value {
+			if str, isStr := sv.(string); isStr {
+				if name == "strings.LastIndexFunc" {
+					last := -1
+					for i, r := range str {
+						if pred(int64(r)) {
+							last = i
+						}
+					}
+					return res(last)
+				}
+				for i, r := range str {
+					if pred(int64(r)) {
+						return res(i)
+					}
+				}
+				return res(-1)
+			}
+			// symbolic bytes: ASCII only (a byte >= 0x80 would start a multi-byte rune)
+			b := toBytes(sv)
+			requireASCII(b)
+			if name == "strings.LastIndexFunc" {
+				for i := len(b) - 1; i >= 0; i-- {
+					if pred(b[i]) {
+						return res(i)
+					}
+				}
+				return res(-1)
+			}
+			for i := range b {
+				if pred(b[i]) {
+					return res(i)
+				}
+			}
+			return res(-1)
+		}
+		a0 := args[0]
+		if t, isT := a0.(*tab); isT {
+			return lift1(t, one), true
+		}
+		return one(splitUnion(a0)), true
 	case "regexp.Compile", "regexp.MustCompile":
 		p, ok := concretize(args[0]).(string)
 		if !ok {
